@@ -27,12 +27,22 @@ type Runner interface {
 // A Stream couples a generator of histories with an interpreter.
 type Stream struct {
 	Name string
+	// Blind: every history is executed a second time on a fresh runner WITHOUT the queries the observation makes
+	// after each operation (blindObs is set; the runner's observation function then returns at once); only the last
+	// operation is observed.  Queries are read-only, so the last observation must be the same either way; if it is
+	// not, it is reported as `<loud observation> BLIND-DIFFERS:<blind observation>` (the driver judges it `bad`).
+	// This is what sees state that a query leaves behind for a later operation (memoised answers): a harness that
+	// asks every query after every operation keeps such state fresh and can never see it go stale.
+	Blind bool
 	// Gen emits cases (each a list of op lines beginning with a reset line).
 	Gen func(g *G)
 	New func(st *Stats) Runner
 }
 
 var streams = map[string]*Stream{}
+
+// blindObs: set while the second, query-free execution of a history runs (see Stream.Blind).
+var blindObs bool
 
 func register(s *Stream) { streams[s.Name] = s }
 
@@ -257,6 +267,49 @@ loop:
 		}
 	}
 	timer.Stop()
+	if s.Blind && completed == len(ops)-1 && len(ops) >= 3 && st.Hangs == 0 {
+		// the whole history and up to three of its proper prefixes (so that operations in the middle — in particular
+		// the queries that are operations of the history themselves — also get to be the one observed at the end)
+		ends := []int{len(ops) - 1}
+		for k := 1; k <= 3 && len(ops) > 4; k++ {
+			e := 2 + (len(ops)*k*2654435761+k*97)%(len(ops)-3)
+			if e < len(ops)-1 && !slicesContains(ends, e) {
+				ends = append(ends, e)
+			}
+		}
+		for _, last := range ends {
+			res := make(chan string, 1)
+			go func() {
+				st2 := newStats()
+				r2 := s.New(st2)
+				o := ""
+				for i, line := range ops[:last+1] {
+					// mostly blind: the queries are still made after about one operation in three (their answers
+					// are thrown away), so that a query can leave something behind that the following, unobserved
+					// operations then let go stale
+					blindObs = i < last && (i*7+last)%3 != 0
+					o = safeExec(r2, strings.Fields(line), st2)
+				}
+				blindObs = false
+				res <- o
+			}()
+			differs := ""
+			select {
+			case o := <-res:
+				if o != obs[last] {
+					differs = o
+				}
+			case <-time.After(timeout):
+				blindObs = false
+				st.Hangs++
+				differs = "hang"
+			}
+			if differs != "" {
+				obs[last] += " BLIND-DIFFERS:" + differs
+				break
+			}
+		}
+	}
 	for i, line := range ops {
 		o := "skipped"
 		if i <= completed {
@@ -273,6 +326,15 @@ loop:
 		}
 	}
 	st.endCase(ops)
+}
+
+func slicesContains(xs []int, x int) bool {
+	for _, y := range xs {
+		if y == x {
+			return true
+		}
+	}
+	return false
 }
 
 func readCases(sc *bufio.Scanner, f func([]string)) {
